@@ -81,12 +81,20 @@ Print Assumptions C15_no_rrc_no_change.
 
 (* [r_latest] above is an input of Rrc/C15Conn.v; Rrc/C15Newest.v computes it as conn.go does (one
    replay window per epoch, Conn.newestRecord, records of an epoch above the remote epoch are not
-   admitted).  Repaired code (91521a5, 0538fb0): over any stream of authentic protected records and
-   remote-epoch changes, an admitted record judged newest is above - by epoch, then by sequence
-   number (RFC 9146 section 6) - every record admitted before it. *)
+   admitted).  Code now (91521a5, 0538fb0, 696da78 = rule RSeen): over any stream of authentic
+   protected records and remote-epoch changes, an admitted record is judged newest IF AND ONLY IF it
+   is above - by epoch, then by sequence number (RFC 9146 section 6) - every record admitted before. *)
+Theorem C15_newest_iff :
+  forall (r0 : N) (evs : list nevent) (pre : list (N * N * bool)) (ep seq : N) (v : bool)
+         (post : list (N * N * bool)),
+    snd (nrun RSeen (ninit r0) evs) = pre ++ (ep, seq, v) :: post ->
+    (v = true <-> forall ep' seq' b, In (ep', seq', b) pre -> lex_lt (ep', seq') (ep, seq)).
+Proof. exact newest_iff. Qed.
+Print Assumptions C15_newest_iff.
+
 Theorem C15_newest_is_newest :
   forall (r0 : N) (evs : list nevent) (pre : list (N * N * bool)) (ep seq : N) (post : list (N * N * bool)),
-    snd (nrun true (ninit r0) evs) = pre ++ (ep, seq, true) :: post ->
+    snd (nrun RSeen (ninit r0) evs) = pre ++ (ep, seq, true) :: post ->
     forall ep' seq' b, In (ep', seq', b) pre -> lex_lt (ep', seq') (ep, seq).
 Proof. exact newest_is_newest. Qed.
 Print Assumptions C15_newest_is_newest.
@@ -96,30 +104,55 @@ Print Assumptions C15_newest_is_newest.
    a path challenge is the arrival of a record above every protected record admitted before. *)
 Theorem C15_challenge_only_for_newest :
   forall (local : bytes) (r0 : N) (c0 : cstate) (evs : list eevent) (a : arrival) (o : out),
-    let '(st, acc) := erun true local (mkES (ninit r0) c0) evs in
-    In o (snd (fst (estep true local st (EArrive a)))) -> o_type o = TChallenge ->
+    let '(st, acc) := erun RSeen local (mkES (ninit r0) c0) evs in
+    In o (snd (fst (estep RSeen local st (EArrive a)))) -> o_type o = TChallenge ->
     forall p, In p acc -> lex_lt p (a_ep a, a_seq a).
 Proof. exact challenge_only_for_newest. Qed.
 Print Assumptions C15_challenge_only_for_newest.
 
-(* As coded before the repairs the verdict was the replay window's own answer; it fails both ways.
-   F71: the first record of the epoch, arriving after records 1 and 2, is judged newest. *)
+(* ... and conversely an admitted arrival above every protected record admitted before is handled by
+   the connection-level step as a newest record (whether a challenge leaves is then decided by
+   Rrc/C15Conn.v: negotiation, connection ID, non-active source, no pending challenge, budget). *)
+Theorem C15_newest_arrival_is_latest :
+  forall (local : bytes) (r0 : N) (c0 : cstate) (evs : list eevent) (a : arrival),
+    let '(st, acc) := erun RSeen local (mkES (ninit r0) c0) evs in
+    nadmit (e_n st) (a_ep a) (a_seq a) = true -> record_admitted local (a_rc a) = true ->
+    (forall p, In p acc -> lex_lt p (a_ep a, a_seq a)) ->
+    snd (fst (estep RSeen local st (EArrive a))) =
+    snd (cstep (e_c st) (ERecord (with_latest (a_recv a) true))).
+Proof. exact newest_arrival_is_latest. Qed.
+Print Assumptions C15_newest_arrival_is_latest.
+
+(* The earlier verdicts fail.  RWindow (the replay window's own answer), F71: the first record of
+   the epoch, arriving after records 1 and 2, is judged newest. *)
 Theorem C15_window_verdict_refuted_late_zero :
   let evs := [NRecord 3 1; NRecord 3 2; NRecord 3 0] in
-  snd (nrun false (ninit 3) evs) = [(3, 1, true); (3, 2, true); (3, 0, true)] /\
-  snd (nrun true (ninit 3) evs) = [(3, 1, true); (3, 2, true); (3, 0, false)].
+  snd (nrun RWindow (ninit 3) evs) = [(3, 1, true); (3, 2, true); (3, 0, true)] /\
+  snd (nrun RSeen (ninit 3) evs) = [(3, 1, true); (3, 2, true); (3, 0, false)].
 Proof. exact window_verdict_refuted_late_zero. Qed.
 Print Assumptions C15_window_verdict_refuted_late_zero.
 
-(* F72: a record of epoch 3 arriving after the remote epoch moved to 4 is judged newest. *)
+(* RWindow, F72: a record of epoch 3 arriving after records of epoch 4 is judged newest. *)
 Theorem C15_window_verdict_refuted_old_epoch :
   let evs := [NRecord 3 0; NRecord 3 1; NRemote 4; NRecord 4 0; NRecord 4 1; NRecord 3 5] in
-  snd (nrun false (ninit 3) evs) =
+  snd (nrun RWindow (ninit 3) evs) =
     [(3, 0, true); (3, 1, true); (4, 0, true); (4, 1, true); (3, 5, true)] /\
-  snd (nrun true (ninit 3) evs) =
+  snd (nrun RSeen (ninit 3) evs) =
     [(3, 0, true); (3, 1, true); (4, 0, true); (4, 1, true); (3, 5, false)].
 Proof. exact window_verdict_refuted_old_epoch. Qed.
 Print Assumptions C15_window_verdict_refuted_old_epoch.
+
+(* RAuth ("epoch = the epoch the peer is authorised to use", 0538fb0 until 696da78): the peer's
+   KeyUpdate (3, 1) raises the authorised epoch to 4, our ACK is lost, the peer stays in epoch 3:
+   its records (3, 2), (3, 3) are above everything admitted and are not judged newest. *)
+Theorem C15_auth_epoch_verdict_refuted_ack_lost :
+  let evs := [NRecord 3 0; NRecord 3 1; NRemote 4; NRecord 3 2; NRecord 3 3] in
+  snd (nrun RAuth (ninit 3) evs) =
+    [(3, 0, true); (3, 1, true); (3, 2, false); (3, 3, false)] /\
+  snd (nrun RSeen (ninit 3) evs) =
+    [(3, 0, true); (3, 1, true); (3, 2, true); (3, 3, true)].
+Proof. exact auth_epoch_verdict_refuted_ack_lost. Qed.
+Print Assumptions C15_auth_epoch_verdict_refuted_ack_lost.
 
 (* ------------------------------------------------------------------ challenge freshness *)
 
